@@ -26,4 +26,8 @@ def run(ctx):
                    certs=[("ff", 2, "A"), ("notar", 1, "A"), ("final", 1, "-")],
                    blocks=[((2, "A"), (1, "A")), ((1, "A"), (0, "G"))])
         P.run_model(ctx, "bounds", [2, 2, 1], 0, 7, [s2], INVS, P.rel_c04, witnesses=["W_Pruned"])
+    # code -> spec on real executions: every pool call / Votor step of every correct node of simulated networks
+    # (equivocating and noisy Byzantine validators, loss, crashes, standstill recovery) is a transition of the spec
+    from .. import nodetrace as NT
+    NT.component_sims(ctx, lambda a: "ret" in a)
     return ctx.finish(rule="every (accepted-vote-set, offered vote) pair of the model is one case")
